@@ -30,6 +30,7 @@ class TranslateMonitor:
         self.max_depth = 0
         self.cycle_seen = 0
         self.composite_calls = 0
+        self.cells_set = 0
 
     @classmethod
     def install(cls, r):
@@ -113,6 +114,7 @@ class TranslateMonitor:
 
         @functools.wraps(orig)
         def set_cell(ctx, cell, code):
+            mon.cells_set += 1
             p = mon._pending.pop(id(cell), None)
             if p is not None and (p[0] or p[1]):
                 mon.r.counters['parser_conservation_broken'] += 1
